@@ -5,12 +5,15 @@ C33 (interpreter side) — property theorems closing the chain
 
     interpreted matcher (`Token::Match`, byte level)  =  documented pattern language  =  compiled matcher
 
-for EVERY well-formed pattern string and EVERY token list (no bound on pattern size or list length;
-the proofs are by induction on the interpreter's fuel / the word list, see Proofs/MatchInterp.lean).
+for EVERY well-formed pattern string, EVERY token list and EVERY varid — the InternalError outcome of
+`%varid%` under varid 0 included (no bound on pattern size or list length; the proofs are by induction
+on the interpreter's fuel / the word list, see Proofs/MatchInterp.lean) — and the same for the find
+loops (`Token::findmatch` / `findsimplematch`, with and without `end`).
 
-Hypotheses added to the statement asked for (all decidable, each one necessary — see the
-counterexample theorems at the end of this file):
+Hypotheses (all decidable, each one necessary — see the counterexample theorems in this file):
 
+  * `patternWF p` the pattern is inside the documented grammar (checked for every pattern literal of
+                  lib/*.cpp on every run, obligation T2).
   * `noNul p`     the pattern contains no NUL byte.  A `const char*` pattern ends at its first NUL
                   (lib/token.cpp: `while (*p && *p != ' ')`, `haystack[1] != '\0'`); the model's byte
                   list would carry on behind it, so a list with a NUL does not denote a C string.
@@ -20,81 +23,149 @@ counterexample theorems at the end of this file):
                   (token.cpp:569 vs :574), and `firstWordEquals` likewise (token.cpp:643): a blank
                   inside the token text is matched against the pattern's word separator, so the
                   interpreter lets ONE token such as the string literal `" "` consume the pattern text
-                  `" "` which the language (and the match compiler) read as TWO words.  This is a real
-                  deviation of the interpreter from the documented language (reproduced on the real
-                  code, see docs/C33-interp.md); it is excluded here by the hypothesis and reported.
+                  `" "` which the language (and the match compiler) read as TWO words.  Such tokens
+                  exist in every real token list; the deviation is reproduced on the real code (known
+                  finding `blank-in-token-text`, witness in corpus/C33) and excluded here.
                   A NUL inside `std::string` text ends `c_str()`; the model's byte list does not end
                   there, so such a list does not denote what the C++ reads.
+  * `TokWF t`     (compiled side only) see Props/C33.lean.
 -/
 namespace Cppcheck.Match
 open Cppcheck.Wire
 
-/-- **interpreted = documented language.**  For every well-formed pattern and every token list the
-    byte-level interpreter returns the result of the documented word-level language. -/
-theorem interp_eq_language (p : Wire.Str) (ts : List Tok) (v : Nat)
-    (hp : patternWF p = true) (hn : noNul p = true) (hts : ∀ t ∈ ts, TokStrOK t = true)
-    (hv : v ≠ 0 ∨ usesVarid (parse p) = false) :
-    interpB p ts v = sem (parse p) ts v := by
-  rw [interpB_eq_semWords p ts v hp hn hts hv]
-  unfold sem
-  rcases hv with h | h
-  · simp [h]
-  · simp [h]
+/-- **interpreted = documented language**, every varid (the error outcome included). -/
+theorem interpreted_eq_language (p : Str) (ts : List Tok) (v : Nat)
+    (hp : patternWF p = true) (hn : noNul p = true) (hts : ∀ t ∈ ts, TokStrOK t = true) :
+    interpB p ts v = lang (parse p) ts v :=
+  interpB_eq_langWords p ts v hp hn hts
 
-/-- **C33: compiled = interpreted** (calls with a varid argument, `varid ≠ 0`). -/
-theorem compiled_eq_interpreted (p : Wire.Str) (hasVarid : Bool) (ts : List Tok) (v : Nat)
-    (hp : patternWF p = true) (hn : noNul p = true)
-    (hts : ∀ t ∈ ts, TokWF t = true) (hts' : ∀ t ∈ ts, TokStrOK t = true) (hv : v ≠ 0) :
-    run (compile p hasVarid) ts v = interpB p ts v := by
-  rw [compiled_eq_language p hasVarid ts v hts hv, interp_eq_language p ts v hp hn hts' (Or.inl hv)]
+/-- the statement without the hypotheses on pattern bytes and token texts -/
+def InterpEqLanguageUnrestricted : Prop :=
+  ∀ (p : Str) (ts : List Tok) (v : Nat), patternWF p = true → interpB p ts v = lang (parse p) ts v
 
-/-- **C33: compiled = interpreted** for calls without a varid argument (both run with varid 0):
-    patterns that do not mention `%varid%`. -/
-theorem compiled_eq_interpreted_novarid (p : Wire.Str) (ts : List Tok)
+/-- the statement one would like for the two matchers: well-formed pattern, nothing else -/
+def CompiledEqInterpretedUnrestricted : Prop :=
+  ∀ (p : Str) (hasVarid : Bool) (ts : List Tok) (v : Nat), patternWF p = true →
+    run (compile p hasVarid) ts v = interpB p ts v
+
+/-- **C33: compiled = interpreted**, partial: tokens inside `TokWF` and `TokStrOK`, and either a
+    non-zero varid or a call without varid argument on a pattern that does not use `%varid%`
+    (these are the two call shapes the compiler accepts, T2 checks every call site). -/
+theorem compiled_eq_interpreted_partial (p : Str) (hasVarid : Bool) (ts : List Tok) (v : Nat)
     (hp : patternWF p = true) (hn : noNul p = true)
     (hts : ∀ t ∈ ts, TokWF t = true) (hts' : ∀ t ∈ ts, TokStrOK t = true)
-    (hu : usesVarid (parse p) = false) :
-    run (compile p false) ts 0 = interpB p ts 0 := by
-  rw [compiled_eq_language_novarid p ts hts hu, interp_eq_language p ts 0 hp hn hts' (Or.inr hu)]
+    (hv : v ≠ 0 ∨ (hasVarid = false ∧ usesVarid (parse p) = false)) :
+    run (compile p hasVarid) ts v = interpB p ts v := by
+  rw [compiled_eq_language_partial p hasVarid ts v hts hv, interpreted_eq_language p ts v hp hn hts']
+
+/-- **every varid: the compiled matcher refines the interpreted one.**  It returns the interpreter's
+    result or — only under varid 0 — throws InternalError (earlier than the interpreter would). -/
+theorem compiled_refines_interpreted (p : Str) (ts : List Tok) (v : Nat)
+    (hp : patternWF p = true) (hn : noNul p = true)
+    (hts : ∀ t ∈ ts, TokWF t = true) (hts' : ∀ t ∈ ts, TokStrOK t = true) :
+    run (compile p true) ts v = interpB p ts v ∨ (v = 0 ∧ run (compile p true) ts v = .err) := by
+  rw [interpreted_eq_language p ts v hp hn hts']
+  exact compiled_refines_language p ts v hts
 
 /-! ### simpleMatch: interpreted = exact word equality = documented language = compiled
     (no hypothesis on the tokens or on NUL bytes is needed on the interpreter side) -/
 
 /-- `Token::simpleMatch` = the token texts equal the pattern's words, one by one -/
-theorem simple_interp_eq_words (p : Wire.Str) (ts : List Tok) (hp : simplePatternWF p = true) :
+theorem simple_interp_eq_words (p : Str) (ts : List Tok) (hp : simplePatternWF p = true) :
     simpleMatchB p ts = exactWords (words p) ts :=
   simpleMatchB_eq_words p ts hp
 
-/-- the documented language on a simpleMatch pattern = exact word equality (and never an error) -/
-theorem simple_language_eq_words (p : Wire.Str) (ts : List Tok) (v : Nat) (hp : simplePatternWF p = true) :
-    sem (parse p) ts v = Res.ofBool (exactWords (words p) ts) := by
-  have hl : ∀ w ∈ words p, ∃ s, Word.ofStr w = .one (.lit s) := by
-    rw [words_of_simple p hp]
-    exact fun w hw => ((simplePatternWF_iff p hp).2 w hw).2
-  unfold sem parse
-  rw [usesVarid_lits (words p) hl, semWords_lits v (words p) ts hl]
-  simp
+theorem simple_lits (p : Str) (hp : simplePatternWF p = true) :
+    ∀ w ∈ words p, ∃ s, Word.ofStr w = .one (.lit s) := by
+  rw [words_of_simple p hp]
+  exact fun w hw => ((simplePatternWF_iff p hp).2 w hw).2
 
-theorem simple_interp_eq_language (p : Wire.Str) (ts : List Tok) (v : Nat) (hp : simplePatternWF p = true) :
-    Res.ofBool (simpleMatchB p ts) = sem (parse p) ts v := by
+/-- the documented language on a simpleMatch pattern = exact word equality (and never an error) -/
+theorem simple_language_eq_words (p : Str) (ts : List Tok) (v : Nat) (hp : simplePatternWF p = true) :
+    lang (parse p) ts v = Res.ofBool (exactWords (words p) ts) :=
+  langWords_lits v (words p) ts (simple_lits p hp)
+
+theorem simple_interp_eq_language (p : Str) (ts : List Tok) (v : Nat) (hp : simplePatternWF p = true) :
+    Res.ofBool (simpleMatchB p ts) = lang (parse p) ts v := by
   rw [simple_language_eq_words p ts v hp, simple_interp_eq_words p ts hp]
 
-/-- **C33 (simpleMatch): compiled = interpreted.** -/
-theorem simple_compiled_eq_interpreted (p : Wire.Str) (hasVarid : Bool) (ts : List Tok) (v : Nat)
+/-- **C33 (simpleMatch): compiled = interpreted**, partial: tokens inside `TokWF` (the compiler
+    never passes a varid to a simpleMatch function: `hasVarid = false`). -/
+theorem simple_compiled_eq_interpreted_partial (p : Str) (hasVarid : Bool) (ts : List Tok) (v : Nat)
     (hp : simplePatternWF p = true) (hts : ∀ t ∈ ts, TokWF t = true)
     (hv : v ≠ 0 ∨ hasVarid = false) :
     run (compile p hasVarid) ts v = Res.ofBool (simpleMatchB p ts) := by
-  have hl : ∀ w ∈ words p, ∃ s, Word.ofStr w = .one (.lit s) := by
-    rw [words_of_simple p hp]
-    exact fun w hw => ((simplePatternWF_iff p hp).2 w hw).2
-  have h := run_compileWords hasVarid v hv (words p) .none false ts hts (by
+  have hl := simple_lits p hp
+  have hok : ∀ w ∈ words p, wordOk v (Word.ofStr w) := by
     intro w hw
     obtain ⟨s, hs⟩ := hl w hw
     rw [hs]
-    simp [wordOk, atomOk])
-  simp only [advance] at h
-  unfold compile
-  rw [h, semWords_lits v (words p) ts hl, simple_interp_eq_words p ts hp]
+    simp [wordOk, atomOk]
+  rcases run_compileWords hasVarid v (words p) .none false ts hts (Or.inl ⟨hv, hok⟩) with h | ⟨h1, h2, _⟩
+  · simp only [advance] at h
+    unfold compile
+    rw [h, langWords_lits v (words p) ts hl, simple_interp_eq_words p ts hp]
+  · rcases hv with h | h
+    · exact absurd h2 h
+    · rw [h] at h1; cases h1
+
+/-! ### the find loops: compiled = interpreted = first match of the language -/
+
+/-- **`Token::findmatch` (interpreted) returns the language's first match**, all three outcomes,
+    any `end` budget, every varid -/
+theorem find_interpreted_eq_language (p : Str) (v : Nat) (ts : List Tok) (budget : Nat)
+    (hp : patternWF p = true) (hn : noNul p = true) (hts : ∀ t ∈ ts, TokStrOK t = true) :
+    FirstMatch (fun ts' => lang (parse p) ts' v) ts budget (findInterp p v ts budget) := by
+  unfold findInterp
+  rw [findWith_congr _ (fun ts' => lang (parse p) ts' v) ts budget (fun j _ =>
+    interpreted_eq_language p (ts.drop j) v hp hn (fun t ht => hts t (List.mem_of_mem_drop ht)))]
+  exact findWith_spec _ ts budget
+
+/-- **C33 (findmatch): compiled find = interpreted find**, partial (same hypotheses as for Match) -/
+theorem find_compiled_eq_interpreted_partial (p : Str) (hasVarid : Bool) (v : Nat) (ts : List Tok) (budget : Nat)
+    (hp : patternWF p = true) (hn : noNul p = true)
+    (hts : ∀ t ∈ ts, TokWF t = true) (hts' : ∀ t ∈ ts, TokStrOK t = true)
+    (hv : v ≠ 0 ∨ (hasVarid = false ∧ usesVarid (parse p) = false)) :
+    findWith (fun ts' => run (compile p hasVarid) ts' v) ts budget = findInterp p v ts budget :=
+  findWith_congr _ _ ts budget (fun j _ =>
+    compiled_eq_interpreted_partial p hasVarid (ts.drop j) v hp hn
+      (fun t ht => hts t (List.mem_of_mem_drop ht)) (fun t ht => hts' t (List.mem_of_mem_drop ht)) hv)
+
+/-- the same about the accumulator form the compiler emits (`findFrom`, run by the driver) -/
+theorem findFrom_eq_findInterp_partial (p : Str) (hasVarid : Bool) (v : Nat) (ts : List Tok) (idx budget : Nat)
+    (hp : patternWF p = true) (hn : noNul p = true)
+    (hts : ∀ t ∈ ts, TokWF t = true) (hts' : ∀ t ∈ ts, TokStrOK t = true)
+    (hv : v ≠ 0 ∨ (hasVarid = false ∧ usesVarid (parse p) = false)) :
+    findFrom (compile p hasVarid) v ts idx budget = (findInterp p v ts budget).legacy idx := by
+  rw [findFrom_eq_findWith, find_compiled_eq_interpreted_partial p hasVarid v ts budget hp hn hts hts' hv]
+
+/-- **C33 (findsimplematch): compiled find = interpreted find**, partial: tokens inside `TokWF` -/
+theorem findsimple_compiled_eq_interpreted_partial (p : Str) (hasVarid : Bool) (v : Nat) (ts : List Tok)
+    (idx budget : Nat) (hp : simplePatternWF p = true) (hts : ∀ t ∈ ts, TokWF t = true)
+    (hv : v ≠ 0 ∨ hasVarid = false) :
+    findFrom (compile p hasVarid) v ts idx budget = (findSimpleInterp p ts budget).legacy idx := by
+  rw [findFrom_eq_findWith]
+  unfold findSimpleInterp
+  rw [findWith_congr _ (fun ts' => Res.ofBool (simpleMatchB p ts')) ts budget (fun j _ =>
+    simple_compiled_eq_interpreted_partial p hasVarid (ts.drop j) v hp
+      (fun t ht => hts t (List.mem_of_mem_drop ht)) hv)]
+
+/-- `Token::findsimplematch` returns the first position whose tokens spell the pattern's words -/
+theorem findsimple_interpreted_eq_language (p : Str) (v : Nat) (ts : List Tok) (budget : Nat)
+    (hp : simplePatternWF p = true) :
+    FirstMatch (fun ts' => lang (parse p) ts' v) ts budget (findSimpleInterp p ts budget) := by
+  unfold findSimpleInterp
+  rw [findWith_congr _ (fun ts' => lang (parse p) ts' v) ts budget (fun j _ =>
+    simple_interp_eq_language p (ts.drop j) v hp)]
+  exact findWith_spec _ ts budget
+
+/-! ### name kept for Props/C05.lean (statement over the coarse `sem`) -/
+
+theorem interp_eq_language (p : Str) (ts : List Tok) (v : Nat)
+    (hp : patternWF p = true) (hn : noNul p = true) (hts : ∀ t ∈ ts, TokStrOK t = true)
+    (hv : v ≠ 0 ∨ usesVarid (parse p) = false) :
+    interpB p ts v = sem (parse p) ts v := by
+  rw [interpreted_eq_language p ts v hp hn hts, lang_eq_sem _ _ _ hv]
 
 /-! ### the hypotheses are satisfiable by ordinary inputs, and the theorems are about all word kinds -/
 
@@ -109,42 +180,81 @@ example : TokStrOK (exTok "" .eNone 0 false) = true := by decide
 example : interpB "%varid% =|+= !!0 [;,] foo|".toList
     [exTok "x" .eVariable 3 true, exTok "+=" .eAssignmentOp 0 false, exTok "1" .eNumber 0 false,
      exTok ";" .eExtendedOp 0 false] 3 = .t := by decide
+-- varid 0 is inside `interpreted_eq_language`: the throw happens exactly when the language says so
+example : interpB "a|%varid%".toList [exTok "b" .eName 0 true] 0 = .err
+    ∧ interpB "a|%varid%".toList [exTok "a" .eName 0 true] 0 = .t
+    ∧ interpB "a %varid%".toList [exTok "b" .eName 0 true] 0 = .f
+    ∧ interpB "%varid%".toList [] 0 = .f := by decide
+-- a find with an `end` budget: the interpreted and the compiled loop stop in front of `end`
+example : findInterp "x =".toList 0
+    [exTok "x" .eName 0 true, exTok ";" .eExtendedOp 0 false, exTok "x" .eName 0 true, exTok "=" .eAssignmentOp 0 false] 4
+      = .hit 2
+    ∧ findInterp "x =".toList 0
+    [exTok "x" .eName 0 true, exTok ";" .eExtendedOp 0 false, exTok "x" .eName 0 true, exTok "=" .eAssignmentOp 0 false] 2
+      = .none := by decide
 
-/-! ### the statement without the two extra hypotheses is false: counterexamples -/
-
-/-- the statement as first asked for: well-formedness of the pattern only -/
-def InterpEqLanguageUnrestricted : Prop :=
-  ∀ (p : Wire.Str) (ts : List Tok) (v : Nat), patternWF p = true →
-    (v ≠ 0 ∨ usesVarid (parse p) = false) → interpB p ts v = sem (parse p) ts v
+/-! ### the unrestricted statements are false: counterexamples (each replayed on the real code) -/
 
 /-- a token with a blank inside (the string literal `" "`): the interpreter lets it swallow the two
-    pattern words `"` and `"|%any%`'s first alternative; the language says no match.
-    Reproduced on the real `Token::Match`. -/
+    pattern words `"` and `"|%any%`'s first alternative; the language says no match. -/
 theorem interp_ne_language_blank_token :
     interpB "\" \"|%any%".toList [exTok "\" \"" .eString 0 false, exTok "x" .eVariable 1 true] 1
-      ≠ sem (parse "\" \"|%any%".toList) [exTok "\" \"" .eString 0 false, exTok "x" .eVariable 1 true] 1 := by
+      ≠ lang (parse "\" \"|%any%".toList) [exTok "\" \"" .eString 0 false, exTok "x" .eVariable 1 true] 1 := by
+  decide
+
+/-- **M1 finding `blank-in-token-text`**: on the same input the two real matchers disagree — the
+    tokens are inside `TokWF`, only `TokStrOK` fails. -/
+theorem compiled_ne_interpreted_blank_token :
+    patternWF "\" \"|%any%".toList = true ∧
+    TokWF (exTok "\" \"" .eString 0 false) = true ∧ TokStrOK (exTok "\" \"" .eString 0 false) = false ∧
+    run (compile "\" \"|%any%".toList false) [exTok "\" \"" .eString 0 false, exTok "x" .eVariable 1 true] 0 = .f ∧
+    interpB "\" \"|%any%".toList [exTok "\" \"" .eString 0 false, exTok "x" .eVariable 1 true] 0 = .t := by
   decide
 
 /-- same for `!!`: `firstWordEquals` runs over the blank -/
 theorem interp_ne_language_blank_token_neg :
     interpB "!!a b".toList [exTok "a b" .eName 0 true, exTok "b" .eName 0 true] 1
-      ≠ sem (parse "!!a b".toList) [exTok "a b" .eName 0 true, exTok "b" .eName 0 true] 1 := by
+      ≠ lang (parse "!!a b".toList) [exTok "a b" .eName 0 true, exTok "b" .eName 0 true] 1 := by
   decide
 
 /-- a NUL byte inside the token text (the model does not cut the text there as `c_str()` does) -/
 theorem interp_ne_language_nul_token :
-    interpB ['a'] [⟨['a', '\x00'], .eName, 0, true⟩] 1 ≠ sem (parse ['a']) [⟨['a', '\x00'], .eName, 0, true⟩] 1 := by
+    interpB ['a'] [⟨['a', '\x00'], .eName, 0, true⟩] 1 ≠ lang (parse ['a']) [⟨['a', '\x00'], .eName, 0, true⟩] 1 := by
   decide
 
 /-- a NUL byte inside the pattern list (not a C string): the byte loop stops there, the word
     splitter does not -/
 theorem interp_ne_language_nul_pattern :
     interpB ['a', '\x00', 'b'] [exTok "a" .eName 0 true] 1
-      ≠ sem (parse ['a', '\x00', 'b']) [exTok "a" .eName 0 true] 1 := by
+      ≠ lang (parse ['a', '\x00', 'b']) [exTok "a" .eName 0 true] 1 := by
   decide
 
 theorem interp_eq_language_unrestricted_false : ¬ InterpEqLanguageUnrestricted := by
   intro h
-  exact interp_ne_language_blank_token (h _ _ 1 (by decide) (Or.inl (by decide)))
+  exact interp_ne_language_blank_token (h _ _ 1 (by decide))
+
+/-- **M3 finding `varid0-eager-throw`**: under varid 0 the compiled matcher throws where the
+    interpreter returns a verdict (well-formed pattern, ordinary tokens) -/
+theorem compiled_ne_interpreted_varid0 :
+    patternWF "x|%varid%".toList = true ∧
+    TokWF (exTok "x" .eName 0 true) = true ∧ TokStrOK (exTok "x" .eName 0 true) = true ∧
+    run (compile "x|%varid%".toList true) [exTok "x" .eName 0 true] 0 = .err ∧
+    interpB "x|%varid%".toList [exTok "x" .eName 0 true] 0 = .t ∧
+    run (compile "%varid%".toList true) [] 0 = .err ∧ interpB "%varid%".toList [] 0 = .f := by
+  decide
+
+/-- **F17 finding `literal-typed-token`** between the two matchers -/
+theorem compiled_ne_interpreted_literal_typed_token :
+    patternWF "const|restrict".toList = true ∧ TokStrOK (exTok "restrict" .eVariable 1 true) = true ∧
+    TokWF (exTok "restrict" .eVariable 1 true) = false ∧
+    run (compile "const|restrict".toList false) [exTok "restrict" .eVariable 1 true] 0 = .f ∧
+    interpB "const|restrict".toList [exTok "restrict" .eVariable 1 true] 0 = .t := by
+  decide
+
+theorem compiled_eq_interpreted_unrestricted_false : ¬ CompiledEqInterpretedUnrestricted := by
+  intro h
+  have := h "const|restrict".toList false [exTok "restrict" .eVariable 1 true] 0 (by decide)
+  rw [compiled_ne_interpreted_literal_typed_token.2.2.2.1, compiled_ne_interpreted_literal_typed_token.2.2.2.2] at this
+  cases this
 
 end Cppcheck.Match
